@@ -3808,6 +3808,29 @@ func (r *vpRun) oddShapes(rng *rand.Rand) {
 	r.emit("p verdict", "ok")
 }
 
+// watched runs a hand-written scenario (which calls the container directly, without the per-call watchdog of the
+// generated scenarios) under a watchdog: a scenario that does not come back within the limit is a hang of the
+// implementation (C09/C13: no operation hangs). It is reported as a monitor failure with the scenario's name and
+// the run stops there - the stuck goroutine still owns the world.
+func (r *vpRun) watched(name string, f func()) (hung bool) {
+	done := make(chan struct{})
+	go func() {
+		defer close(done)
+		f()
+	}()
+	select {
+	case <-done:
+		return false
+	case <-time.After(45 * time.Second):
+		r.monBad++
+		r.stats["monitor_fail:C09,C13"]++
+		r.stats["hangs"]++
+		fmt.Fprintf(r.mon, "scenario=%d props=C09,C13,C12,C10 what=the hand-written scenario %q did not return within 45s: an operation of the container hangs\n  (scenario %s)\n", r.scen, name, name)
+		r.mon.Flush()
+		return true
+	}
+}
+
 func vpEnvInt(name string, def int) int {
 	if v := os.Getenv(name); v != "" {
 		if n, err := strconv.Atoi(v); err == nil {
@@ -3850,51 +3873,75 @@ func TestVerifCore(t *testing.T) {
 		rng := rand.New(rand.NewSource(seed*1000003 + int64(it)))
 		o := vpGenOpts{n: 2 + rng.Intn(7), forms: it%2 == 1, faults: it%3 == 2, defects: it%5 == 4, rebuild: it%7 == 3}
 		if it%50 == 7 {
-			r.reservedTypes(rng)
+			if r.watched("reservedTypes", func() { r.reservedTypes(rng) }) {
+				break
+			}
 			continue
 		}
 		if it%50 == 23 {
-			r.reentrant(rng)
+			if r.watched("reentrant", func() { r.reentrant(rng) }) {
+				break
+			}
 			continue
 		}
 		if it%50 == 37 {
-			r.oddShapes(rng)
+			if r.watched("oddShapes", func() { r.oddShapes(rng) }) {
+				break
+			}
 			continue
 		}
 		if it%50 == 41 {
-			r.midCreation(rng)
+			if r.watched("midCreation", func() { r.midCreation(rng) }) {
+				break
+			}
 			continue
 		}
 		if it%50 == 43 {
-			r.overlappingClose(rng)
+			if r.watched("overlappingClose", func() { r.overlappingClose(rng) }) {
+				break
+			}
 			continue
 		}
 		if it%50 == 47 {
-			r.siblingRemoved(rng, it/50+int(seed))
+			if r.watched("siblingRemoved", func() { r.siblingRemoved(rng, it/50+int(seed)) }) {
+				break
+			}
 			continue
 		}
 		if it%50 == 13 || it%50 == 31 {
-			r.regroup(rng)
+			if r.watched("regroup", func() { r.regroup(rng) }) {
+				break
+			}
 			continue
 		}
 		if it%50 == 3 {
-			r.cancelledCreation(rng)
+			if r.watched("cancelledCreation", func() { r.cancelledCreation(rng) }) {
+				break
+			}
 			continue
 		}
 		if it%50 == 9 || it%50 == 29 {
-			r.lateOutputs(rng)
+			if r.watched("lateOutputs", func() { r.lateOutputs(rng) }) {
+				break
+			}
 			continue
 		}
 		if it%50 == 17 {
-			r.cancelledBuild(rng)
+			if r.watched("cancelledBuild", func() { r.cancelledBuild(rng) }) {
+				break
+			}
 			continue
 		}
 		if it%50 == 19 {
-			r.typedNilOutputs(rng)
+			if r.watched("typedNilOutputs", func() { r.typedNilOutputs(rng) }) {
+				break
+			}
 			continue
 		}
 		if it%50 == 27 {
-			r.varyingConcrete(rng)
+			if r.watched("varyingConcrete", func() { r.varyingConcrete(rng) }) {
+				break
+			}
 			continue
 		}
 		r.scenario(rng, o)
